@@ -447,7 +447,7 @@ class Simplifier(walkers.dag.DagWalker):
         value: Union[Fraction, int, float] = 0
         if left.is_int_constant() and right.is_int_constant():
             if (left.constant_value() % right.constant_value()) == 0:
-                value = int(left.constant_value() / right.constant_value())
+                value = left.constant_value() // right.constant_value()
             else:
                 value = Fraction(left.constant_value(), right.constant_value())
         elif (left.is_int_constant() or left.is_real_constant()) and (
